@@ -44,8 +44,8 @@ Definition sched_bindings (st : ostep) : list (N * (N * N)) :=
   flat_map (fun e =>
     match e with
     | ENewAlloc k a n _ _ => [(a, (k, n))]
-    | ERelease phk a tt =>
-        if tt =? TT_PlaceholderReplaced then
+    | ERelease phk a ty =>
+        if ty =? TT_PlaceholderReplaced then
           match find_app (st_obs st) a with
           | Some ap =>
               match find_alloc (ap_allocs ap) phk with
